@@ -73,6 +73,7 @@ func member(k int) interceptor.Interceptor {
 var (
 	errDown  = errors.New("downstream failure")
 	errClose = [2]error{errors.New("close failure 0"), errors.New("close failure 1")}
+	errClose2 = errors.New("close failure 2")
 )
 
 type wrec struct {
@@ -94,7 +95,18 @@ func HC01Chain() {
 	if vr.NondetBool() {
 		pb.closeErr = errClose[1]
 	}
-	chain := interceptor.NewChain([]interceptor.Interceptor{pa, pb})
+	// optionally the second member is itself a chain (nested chains must keep every Close error)
+	pc := &proxy{Interceptor: &interceptor.NoOp{}}
+	nested := vr.Param("nested", 0) != 0
+	var chain *interceptor.Chain
+	if nested {
+		if vr.NondetBool() {
+			pc.closeErr = errClose2
+		}
+		chain = interceptor.NewChain([]interceptor.Interceptor{pa, interceptor.NewChain([]interceptor.Interceptor{pb, pc})})
+	} else {
+		chain = interceptor.NewChain([]interceptor.Interceptor{pa, pb})
+	}
 
 	var wlog [8]wrec
 	nw := 0
@@ -208,7 +220,14 @@ func HC01Chain() {
 		vr.Cover("close error")
 		vr.Assert(cerr != nil && errors.Is(cerr, errClose[1]), "second Close error preserved")
 	}
-	if pa.closeErr == nil && pb.closeErr == nil {
+	if nested {
+		vr.Assert(pc.closes == 1 && pc.unbindLocal == 1 && pc.unbindRemote == 1, "nested member: Close/Unbind delivered exactly once")
+		if pc.closeErr != nil {
+			vr.Cover("nested close error")
+			vr.Assert(cerr != nil && errors.Is(cerr, errClose2), "Close error of a nested chain member preserved")
+		}
+	}
+	if pa.closeErr == nil && pb.closeErr == nil && pc.closeErr == nil {
 		vr.Assert(cerr == nil, "no Close error invented")
 	}
 	vr.Assert(vr.LiveThreads() == 0, "no goroutine survives Close")
